@@ -18,6 +18,7 @@ import posixpath
 import jinja2
 
 import lena.core
+import lena.meta
 import lena.output
 import lena.output.write as write_mod
 import lena.output.latex_to_pdf as latex_mod
@@ -71,7 +72,10 @@ ASSUMPTIONS = [
     "clock ties, backward clock jumps, failing converters and runs abandoned by their consumer are "
     "explored only in beyond_quantifier mode and never produce a verdict",
     "the signature of a violating history is its earliest violated stage invariant; the history is "
-    "not judged after it",
+    "not judged after it - except for the known root cause (Write creating a missing file does not "
+    "set output.changed): it is recorded, the plot is marked, and a later stage of a marked plot "
+    "that is stale although it was explicitly told changed=False is counted as a consequence, not "
+    "as a new violation; the mark is removed when the plot's pdf is fresh again",
 ]
 FAULT_KINDS = ["delete-csv", "delete-tex", "delete-pdf", "delete-png", "data-changed", "template-changed",
                "converter-finishes-after-k-polls", "converter-finishes-at-communicate",
@@ -82,7 +86,9 @@ EXPECTED_PROBES = ["csv-deleted-and-data-changed", "tex-deleted-and-template-cha
                    "second-makefilename-not-overwriting", "second-makefilename-overwriting",
                    "prefix-and-suffix", "fixpoint-reached", "mtime-comparison-used",
                    "changed-plot-next-to-unchanged-plot", "grouped-variant", "group-with-one-changed-member",
-                   "pipeline-object-reused", "default-jinja-environment"]
+                   "pipeline-object-reused", "default-jinja-environment",
+                   "stale-as-consequence-of-known-finding", "static-context",
+                   "members-written-before-grouping"]
 
 _TIER = ["quick"]
 
@@ -99,7 +105,7 @@ OUTDIR = "out"
 TEMPLATE_PATH = "templates/plot.tex"
 KINDS = ["csv", "tex", "pdf", "png"]
 MKF = ["plain", "dir", "dirfmt", "prefix", "suffix", "presuf", "ctxprefix", "second-noow", "second-ow",
-       "ctxname", "ctxdir-empty", "ctxext-empty", "mkf-ext", "suffix-scaled", "prefix-scaled"]
+       "ctxname", "ctxdir-empty", "ctxext-empty", "mkf-ext", "suffix-scaled", "prefix-scaled", "dir-optional"]
 
 
 def template_text(version):
@@ -141,6 +147,9 @@ def make_filenames(variant):
         return [MF("{{plot.name}}"), MF("other_{{plot.name}}", dirname="zzz")]
     if variant == "second-ow":
         return [MF(prefix="pre_"), MF("{{plot.name}}"), MF("ow_{{plot.name}}", overwrite=True)]
+    if variant == "dir-optional":
+        # a key that cannot be formatted for a value is not set for that value
+        return [MF(dirname="d_{{extra.dir}}"), MF("{{plot.name}}")]
     if variant == "suffix-scaled":
         # the pattern of the group_plots documentation: a later name built from the existing one
         return [MF(suffix="_log"), MF("{{plot.name}}"), MF("{{output.filename}}_scaled", overwrite=True)]
@@ -171,6 +180,9 @@ def expected_name(variant, name):
         return "zzz", name
     if variant == "second-ow":
         return "", "ow_" + name
+    if variant == "dir-optional":
+        # only even plots carry extra.dir
+        return ("d_a" if int(name[1:]) % 2 == 0 else ""), name
     if variant == "suffix-scaled":
         return "", name + "_log_scaled"
     if variant == "prefix-scaled":
@@ -238,6 +250,8 @@ def gen_scenario(tape):
     sc.reuse = tape.chance(1, 3, "reuse-pipeline")
     # RenderLaTeX with its own default environment (template_dir) or with environment=
     sc.env = tape.choice(["environment-param", "template_dir"], "render-env")
+    # the sequence has a (non-empty) static context
+    sc.static = tape.chance(1, 3, "static-context")
     nruns = 1 + tape.draw(4, "nruns")
     sc.runs = []
     for r in range(nruns):
@@ -270,6 +284,9 @@ class World(object):
         self.log = res.log
         step = 0 if sc.clock == "tie" else sc.step
         self.fs = SimFS(log=res.log, clock=Clock(), tick_draw=lambda: step)
+        # a hundred ticks per second: files written within the same second have different
+        # modification times, as on a real disk
+        self.fs.ticks_per_second = 100
         self.simos = SimOS(self.fs)
         write_mod.os = self.simos
         write_mod.open = self.fs.open
@@ -282,6 +299,8 @@ class World(object):
         render_mod.jinja2 = JinjaFacade(self.fs)
         self.rec = {}
         self._seq = None
+        # plots whose derived artefacts may be stale as a consequence of the known root cause
+        self.tainted = set()
 
     def env(self):
         return jinja2.Environment(loader=make_loader(self.fs, "templates"), **lena.output.jinja_syntax_latex)
@@ -299,6 +318,8 @@ class World(object):
                 ctx["output"] = {"dirname": ""}
             elif self.sc.mkf == "ctxext-empty":
                 ctx["output"] = {"fileext": ""}
+            elif self.sc.mkf == "dir-optional" and p % 2 == 0:
+                ctx["extra"] = {"dir": "a"}
             vals.append((h, ctx))
         return vals
 
@@ -316,7 +337,10 @@ class World(object):
             return {kind: True}
         lkw = {"overwrite": True} if sc.ow_pdf else {}
         pkw = {"overwrite": True} if sc.ow_png else {}
-        els = [lena.output.ToCSV()]
+        els = []
+        if getattr(sc, "static", False):
+            els.append(lena.meta.SetContext("static.note", "s"))
+        els.append(lena.output.ToCSV())
         els += make_filenames(sc.mkf)
         els += [Tap("mkf", rec, self.log),
                 lena.output.Write(OUTDIR, verbose=False, **wopts(sc.w1)), Tap("w1", rec, self.log),
@@ -361,6 +385,8 @@ def run(tape):
         res.probe("pipeline-object-reused")
     if sc.env == "template_dir":
         res.probe("default-jinja-environment")
+    if sc.static:
+        res.probe("static-context")
     log.ev("cfg", "c19", sc.nplots, sc.mkf, sc.w1, sc.w2, sc.ow_pdf, sc.ow_png, sc.clock)
     if sc.w1 == "existing_unchanged" or sc.w2 == "existing_unchanged":
         res.probe("existing_unchanged")
@@ -375,8 +401,11 @@ def run(tape):
 
     stop = [False]
 
-    def viol(sig, detail):
-        stop[0] = True
+    def viol(sig, detail, fatal=True):
+        # fatal=False: the known root cause (Write creating a missing file does not set
+        # output.changed) - it is recorded, the plot is marked, and the history goes on
+        if fatal:
+            stop[0] = True
         if judged[0]:
             res.viol(sig, detail)
         else:
@@ -648,6 +677,14 @@ def check_run(w, sc, res, r, spec, rec, out, sub, start_image, oplog_start, dele
                 fresh = content.startswith(pdf_of(tex, datas) + "@")
             else:
                 fresh = content == png_of(now[P[p]["pdf"]])
+            if kind == "pdf" and fresh:
+                w.tainted.discard(p)
+            incoming = tap_of(rec, stages[si - 1][0], name)[0][1] if si else None
+            if not fresh and p in w.tainted and kind in ("pdf", "png") and incoming is not None \
+                    and incoming.get("changed") is False:
+                # consequence of the known root cause: this stage was told that nothing changed
+                res.probe("stale-as-consequence-of-known-finding")
+                continue
             if not fresh:
                 viol("C19:%s:%s:stale-content" % (label, ex),
                      "run %d, plot %s: %s on disk is not what the current inputs produce (data v%d, "
@@ -658,12 +695,17 @@ def check_run(w, sc, res, r, spec, rec, out, sub, start_image, oplog_start, dele
             # 3. changed is truthful and monotone
             cc = content_changed(p, kind)
             if cc and not truthy_changed(outc):
-                viol("C19:%s:%s:changed-not-set" % (label.split("[")[0], "new-file" if not existed(p, kind)
-                                                   else "existing-file"),
+                sig = "C19:%s:%s:changed-not-set" % (label.split("[")[0], "new-file" if not existed(p, kind)
+                                                     else "existing-file")
+                root = sig == "C19:Write:new-file:changed-not-set"
+                viol(sig,
                      "run %d, plot %s: %s left %s with content different from the previous run, but "
                      "context.output.changed is %r" % (r, name, label, path,
-                                                      (outc or {}).get("changed", "<absent>")))
-                return
+                                                      (outc or {}).get("changed", "<absent>")),
+                     fatal=not root)
+                if not root:
+                    return
+                w.tainted.add(p)
             if prev_changed[p] and not truthy_changed(outc):
                 viol("C19:%s:changed-dropped" % label.split("[")[0],
                      "run %d, plot %s: output.changed was true before %s and is %r after it"
